@@ -23,6 +23,7 @@ func init() {
 	extraCorpus = append(extraCorpus, func(c *Ctx, r *rand.Rand) []map[string]string {
 		var out []map[string]string
 		progs := c09Programs(1, 12)
+		progs = append(progs, c09TypedDecls())
 		for _, p := range progs {
 			out = append(out, map[string]string{"main/main.go": p.Source(false, nil)})
 		}
@@ -390,6 +391,7 @@ func checkC09(c *Ctx) {
 	nsig := len(c09Signatures(maxP))
 	c.Extra["signatures"] = nsig
 	progs = append(progs, c09Recursion(c.pick(300, 1500)))
+	progs = append(progs, c09TypedDecls())
 	// seeded random call-heavy programs: function literals, method values, return f(), variadics
 	r := rand.New(rand.NewSource(c.Seed))
 	for i := 0; i < c.pick(300, 5000); i++ {
@@ -418,4 +420,49 @@ func checkC09(c *Ctx) {
 	p := progs[len(progs)/3]
 	c.sample(map[string]any{"program": p.ID, "source": clip(b.Sources[p.ID], 1800)})
 	c.sample(map[string]any{"program": progs[valid].ID, "source": b.Sources[progs[valid].ID], "expected": b.Behs[progs[valid].ID][0].Render() + "<error>"})
+}
+
+// c09TypedDecls: results delivered to declarations that name several variables and a type
+// (var a, b T = f(); var v, ok bool = m[k]), inside functions, with locals around them, and at package
+// level; next to the untyped and := forms.
+func c09TypedDecls() *Prog {
+	p := &Prog{ID: "c09/typed-decls", Pkg: "main", Main: "Main"}
+	mt := MapOf(TInt, TBool)
+	call := func(fn string, n int, t *Ty) *E { return &E{K: "call", Fn: fn, NRes: n, Ty: t} }
+	p.Funcs = append(p.Funcs,
+		&Func{Name: "two", Results: []*Ty{TInt, TInt}, Body: []*S{ret(lit(TInt, 4), lit(TInt, 5))}},
+		&Func{Name: "three", Params: []string{"s"}, PTypes: []*Ty{TString}, Results: []*Ty{TString, TString, TString},
+			Body: []*S{ret(v("s", TString), bin("+", TString, v("s", TString), sS("!")), sS("z"))}},
+		&Func{Name: "sum2", Params: []string{"k"}, PTypes: []*Ty{TInt}, Results: []*Ty{TInt}, Body: []*S{
+			dcl("before", lit(TInt, 100)),
+			{K: "decl", Names: []string{"a", "b"}, DeclTy: TInt, VarForm: true, Exprs: []*E{call("two", 2, nil)}},
+			dcl("after", lit(TInt, 1000)),
+			ret(bin("+", TInt, bin("+", TInt, bin("+", TInt, v("a", TInt), bin("*", TInt, v("b", TInt), lit(TInt, 10))), v("before", TInt)), bin("+", TInt, v("after", TInt), v("k", TInt))))}},
+		&Func{Name: "lookup", Params: []string{"k"}, PTypes: []*Ty{TInt}, Results: []*Ty{TBool, TBool}, Body: []*S{
+			dcl("m", &E{K: "maplit", Ty: mt, Keys: []*E{lit(TInt, 1)}, Args: []*E{{K: "bool", Ty: TBool, B: true}}}),
+			{K: "decl", Names: []string{"v", "ok"}, DeclTy: TBool, VarForm: true, Exprs: []*E{{K: "mapget", Ty: TBool, Ok: true, X: v("m", mt), I: v("k", TInt)}}},
+			ret(v("v", TBool), v("ok", TBool))}},
+	)
+	p.Globals = append(p.Globals,
+		&S{K: "decl", Names: []string{"GA", "GB"}, DeclTy: TInt, VarForm: true, Exprs: []*E{call("two", 2, nil)}},
+		&S{K: "decl", Names: []string{"GX", "GY"}, DeclTy: TInt, VarForm: true, Exprs: []*E{lit(TInt, 1), lit(TInt, 2)}})
+	body := []*S{
+		pr(sS("globals"), v("GA", TInt), v("GB", TInt), v("GX", TInt), v("GY", TInt)),
+		dcl("keep", lit(TInt, 7)),
+		{K: "decl", Names: []string{"a", "b"}, DeclTy: TInt, VarForm: true, Exprs: []*E{call("two", 2, nil)}},
+		{K: "decl", Names: []string{"s1", "s2", "s3"}, DeclTy: TString, VarForm: true, Exprs: []*E{{K: "call", Fn: "three", NRes: 3, Args: []*E{sS("q")}}}},
+		{K: "decl", Names: []string{"c", "d"}, VarForm: true, Exprs: []*E{call("two", 2, nil)}},
+		{K: "decl", Names: []string{"e", "f"}, Exprs: []*E{call("two", 2, nil)}},
+		{K: "decl", Names: []string{"x", "y"}, DeclTy: TInt, VarForm: true, Exprs: []*E{lit(TInt, 8), lit(TInt, 9)}},
+		pr(sS("locals"), v("keep", TInt), v("a", TInt), v("b", TInt), v("s1", TString), v("s2", TString), v("s3", TString), v("c", TInt), v("d", TInt), v("e", TInt), v("f", TInt), v("x", TInt), v("y", TInt)),
+		pr(sS("sum2"), &E{K: "call", Fn: "sum2", Ty: TInt, NRes: 1, Args: []*E{lit(TInt, 3)}}),
+		{K: "decl", Names: []string{"v1", "ok1"}, DeclTy: TBool, VarForm: true, Exprs: []*E{{K: "call", Fn: "lookup", NRes: 2, Args: []*E{lit(TInt, 1)}}}},
+		{K: "decl", Names: []string{"v2", "ok2"}, DeclTy: TBool, VarForm: true, Exprs: []*E{{K: "call", Fn: "lookup", NRes: 2, Args: []*E{lit(TInt, 2)}}}},
+		pr(sS("lookup"), v("v1", TBool), v("ok1", TBool), v("v2", TBool), v("ok2", TBool), v("keep", TInt)),
+		{K: "for", Init: dcl("i", lit(TInt, 0)), Cond: bin("<", TBool, v("i", TInt), lit(TInt, 2)), Post: &S{K: "incdec", Lhs: []*E{v("i", TInt)}, D: 1}, Body: []*S{
+			{K: "decl", Names: []string{"p", "q"}, DeclTy: TInt, VarForm: true, Exprs: []*E{call("two", 2, nil)}},
+			pr(sS("loop"), v("i", TInt), v("p", TInt), v("q", TInt))}},
+	}
+	p.Funcs = append(p.Funcs, &Func{Name: "Main", Body: body})
+	return p
 }
